@@ -49,7 +49,7 @@ CLAIMS["C03"] = ("The 'head only ever moves to a fully validated block with stri
     "through LMDB and are not decided.",
     VERUS_TB + KANI_TB + "txhashset::extending / header_extending are assumed (they build structs holding &mut borrows): Ok(v) only if the closure returned Ok(v), closure writes kept only without a forced rollback; the validation callees are uninterpreted 'this check passed' predicates; header hash stubbed to a constant in the Kani unit.",
     "Verus conjunction contracts on extracted real functions with lifted closures + Kani full-domain harness", "6 C03")
-CLAIMS["C04"] = ("Proof-level: (Verus, on extracted text) validate_header returns Ok only if ALL header rules hold -- height = parent+1, scheduled version, strictly later timestamp, MMR counts grew, weight lower bound, and unless SKIP_POW: PoW verifies, cumulative difficulty strictly above the parent's, achieved difficulty >= the increase, increase == network retarget over the parent's ancestors, matching secondary scaling before version 5; UntrustedBlockHeader::read accepts only headers within the future-time limit with scheduled version, admissible edge bits, right proof size and MMR sizes within the per-height weight bound; the wtema retarget is total on its stated domain, deterministic, never below the minimum, exactly max(min, floor(last*14400/(14340+dt))) hence bounded per block, and next_difficulty selects it exactly for versions >= 5. (Kani, all u64 heights x 4 chains) version schedule in 1..=5, monotone, equals the table; damp/clamp bounds; secondary ratio; graph_weight shift safety. NOT decided: the DMA window rule, PoW itself (C05), the header-MMR root commitment, and mutation-of-a-valid-chain as a history statement.",
+CLAIMS["C04"] = ("Proof-level: (Verus, on extracted text) validate_header returns Ok only if ALL header rules hold -- height = parent+1, scheduled version, strictly later timestamp, MMR counts grew, weight lower bound, and unless SKIP_POW: PoW verifies, cumulative difficulty strictly above the parent's, achieved difficulty >= the increase, increase == network retarget over the parent's ancestors, matching secondary scaling before version 5; UntrustedBlockHeader::read accepts only headers within the future-time limit with scheduled version, admissible edge bits, right proof size and MMR sizes within the per-height weight bound; the wtema retarget is total on its stated domain, deterministic, never below the minimum, exactly max(min, floor(last*14400/(14340+dt))) hence bounded per block, and next_difficulty selects it exactly for versions >= 5; the pre-HF4 DMA retarget (next_dma_difficulty, with the real damp and clamp verified verbatim) is total on its stated domain and returns exactly max(3, floor(S*60/T)) with S the sum of the last 60 difficulties and T = clamp(damp(window time span, 3600, 3), 3600, 2), so 1800 <= T <= 7200 whatever the timestamps. (Kani, all u64 heights x 4 chains) version schedule in 1..=5, monotone, equals the table; damp/clamp bounds; secondary ratio; graph_weight shift safety. NOT decided: how the DMA window is gathered and padded (difficulty_data_to_vector) and secondary_pow_scaling's counting of secondary headers, PoW itself (C05), the header-MMR root commitment, and mutation-of-a-valid-chain as a history statement.",
     VERUS_TB + KANI_TB + "helpers of the validators are uninterpreted; decoded heights < 2^48 for the weight-bound multiplication.",
     'Verus conjunction-of-checks + arithmetic contracts on extracted real functions; Kani full-domain harnesses', "6 C04")
 CLAIMS["C05"] = ("Cycle verification, proof-level and UNBOUNDED (Verus on the extracted real text, any proof size, any siphash outputs): CuckatooContext::verify_impl (the primary PoW), CuckaroozContext::verify (the secondary PoW), "
